@@ -40,7 +40,7 @@ PROP = {
     "streams": [
         {"name": "c07.days", "args_thorough": ["all"], "extra_years": True},
     ],
-    "ops": c07_ops,
+    "ops": with_extra(c07_ops, eq_cyc=(0, 1, 2), objhist=(1,), dep=True),
     "exhaustive": False,
     "rule": "c07.days: every civil date of the selected years (quick ~470k, thorough all 3,652,061): year/month/day pillar of the sexagenary-day "
             "view, day pillar through the lunar-day route, weekday through the civil and the lunar route. Spec: pillar = (day number + 49) mod 60, "
